@@ -416,7 +416,9 @@ def _run_spec_inner(spec, symbolic, seed, backend, bo, progs):
         return {"error": type(e).__name__, "detail": str(e)[:300], "stage": "run"}
     out = {"error": None}
     st = res.state
-    if backend == "gaussian":
+    if backend == "bosonic":
+        out["state"] = (np.array(st.weights()), np.array(st.means()), np.array(st.covs()))
+    elif backend == "gaussian":
         out["state"] = (np.array(st.means()), np.array(st.cov()))
     else:
         # compared up to normalisation: in a truncated Fock space a post-selected measurement renormalises whatever
@@ -938,7 +940,7 @@ def correspondence(ctx):
 
 
 def search(ctx):
-    for fn in (globals().get("search_corpus"), globals().get("search_programs"), globals().get("search_optimize_shapes"), globals().get("search_cross"), globals().get("search_backends"), globals().get("search_loader"), globals().get("search_guards")):
+    for fn in (globals().get("search_corpus"), globals().get("search_programs"), globals().get("search_optimize_shapes"), globals().get("search_cross"), globals().get("search_backends"), globals().get("search_loader"), globals().get("search_guards"), globals().get("search_op_sweep")):
         if fn:
             fn(ctx)
 
@@ -2227,8 +2229,12 @@ def convert_predicate(c):
     prog = sf.Program(LOADER_MODES)
     e = plain_expr(c["tree"])
     arg = blackbird.RegRefTransform(e) if (c.get("via_transform") and not any(k == "free" for k, _ in atoms(c["tree"]))) else e
-    out = sfpar.par_convert([arg, 0.5], prog)
-    conv = out[0]
+    try:
+        out = sfpar.par_convert([arg, 0.5], prog)
+        conv = out[0]
+        conv.atoms
+    except Exception as ex:
+        return ("convert:error", "par_convert of an expression over %s raised / returned a non-expression: %s %s" % (sorted(str(x) for x in e.free_symbols), type(ex).__name__, str(ex)[:80]))
     if out[1] != 0.5:
         return ("convert:numeric", "par_convert changed a numeric argument: %r" % (out[1],))
     want_meas = sorted({a for k, a in atoms(c["tree"]) if k == "meas"})
@@ -2528,3 +2534,80 @@ def replay_guard(ctx, d):
     bad = guard_predicate(d)
     print("predicate:", bad)
     return bad is not None
+
+
+# ---------------------------------------------------------------------------------------
+# search S9: deterministic sweep "one operation, one symbolic parameter": every operation that accepts parameters,
+# every parameter position, the parameter being a free parameter or a function of a measured value, plain and
+# daggered, on every backend that applies the operation (natively or decomposed), default and non-default hbar.
+
+OP_SWEEP = dict(SYM_OPS)
+OP_SWEEP.update(FOCK_OPS)
+OP_SWEEP.update({k: v for k, v in SYM_PREPS.items() if v[1]})
+GAUSS_ONLY = ("ThermalLossChannel",)
+FOCK_ONLY = ("Kgate", "Vgate", "CKgate")
+SWEEP_VALUE = {"r": 0.35, "a": 0.8, "x": 0.45, "t": 0.7, "n": 0.4}
+
+
+def op_sweep_spec(name, pos, kind, dagger, backend, hbar=None, sel=0.55):
+    nm_, kinds = OP_SWEEP[name]
+    t = 1
+    modes = [t] if nm_ == 1 else [t, 2 if backend != "fock" else 0]
+    if backend == "fock" and nm_ == 2:
+        modes = [1, 0]
+    atom = ["free", "a"] if kind == "free" else ["meas", 0]
+    aval = 0.6 if kind == "free" else sel
+    trees = []
+    for i, k in enumerate(kinds):
+        v = SWEEP_VALUE[k] * (1 + 0.3 * i)
+        if i == pos:
+            # an expression whose value under the binding / outcome is v
+            tr = ["mul", v / math.sin(aval), ["fn", "sin", atom]] if k not in ("t", "n") else ["mul", v / aval ** 2, ["pow", atom, 2]]
+            trees.append(tr)
+        else:
+            trees.append(round(v, 6))
+    gl = backend != "fock"
+    n = 3 if gl else 2
+    other = 2 if gl else 0
+    pre = [["Sgate", [0.3, 0.2], [0], False, None], ["Dgate", [0.25, 0.4], [t], False, None], ["BSgate", [0.5, 0.3], [0, t], False, None]]
+    if kind == "meas":
+        pre.append(["MeasureHomodyne", [0.0], [0], False, sel])
+    pre.append(["Sgate", [0.2, -0.3], [other], False, None])
+    post = [["BSgate", [0.7, 0.1], [t, other], False, None], ["Rgate", [0.3], [t], False, None]]
+    spec = {"n": n, "segs": [pre + [[name, trees, modes, dagger, None]] + post], "bind": {"a": 0.6} if kind == "free" else {}, "defaults": {}}
+    if backend == "fock":
+        spec.update(backend="fock", cutoff=5)
+    elif backend == "bosonic":
+        spec["backend"] = "bosonic"
+    if hbar:
+        spec["hbar"] = hbar
+    return spec
+
+
+def search_op_sweep(ctx):
+    rng = ctx.rng
+    i = 0
+    for name in sorted(OP_SWEEP):
+        nm_, kinds = OP_SWEEP[name]
+        for pos in range(len(kinds)):
+            for kind in ("free", "meas"):
+                for dagger in ((False, True) if name in GATES_WITH_H or name in FOCK_ONLY else (False,)):
+                    for backend in ("gaussian", "fock", "bosonic"):
+                        if (backend != "fock" and name in FOCK_ONLY) or (backend == "fock" and name in GAUSS_ONLY) or (backend == "bosonic" and name == "sMZgate"):
+                            continue
+                        i += 1
+                        if ctx.quick and backend == "fock" and name not in FOCK_ONLY and name != "MZgate" and (i + ctx.seed) % 3:
+                            continue      # quick: a rotating third of the fock half for operations also covered on gaussian
+                        if ctx.quick and backend == "bosonic" and (i + ctx.seed) % 3:
+                            continue
+                        hbar = [None, 1.0, None, 0.5][i % 4]
+                        spec = op_sweep_spec(name, pos, kind, dagger, backend, hbar, sel=rng.choice([0.55, -0.4, 0.7]))
+                        bad = prog_predicate(spec)
+                        ctx.case({"kind": "op-sweep", "op": name, "pos": pos, "atom": kind, "dagger": dagger, "backend": backend, "spec": spec},
+                                 nontrivial=True, bucket="opsweep-%s-%s" % (backend, name))
+                        if bad and not bad[0].startswith("apply:"):
+                            ctx.counterexample("op-sweep:%s:p%d:%s:%s" % (name, pos, backend, bad[0]),
+                                               "%s%s on %s with parameter %d a %s expression: %s" % (name, ".H" if dagger else "", backend, pos, "free-parameter" if kind == "free" else "measured-value", bad[1]),
+                                               {"check": "prog", "spec": spec})
+                        elif bad:
+                            ctx.counterexample(bad[0], bad[1], {"check": "prog", "spec": spec})
